@@ -171,6 +171,37 @@ class Scenario:
         targets = {e.id: e for e in na + relw}
         hb = {}
         extra = []
+        # release sequences: an RMW that reads from a release write (or from a later member of its release sequence)
+        # continues that sequence, so an acquire read of the RMW's write synchronises with the head as well
+        rmws = [e for e in ev if e.kind == "U"]
+        rs = {}
+
+        def rsv(w, u):
+            k = (w.id, u.id)
+            if k not in rs:
+                rs[k] = z3.Bool(f"rs_{w.id}_{u.id}")
+            return rs[k]
+        for w in relw:
+            for u in rmws:
+                if u is w or (u.id, w.id) not in self.rf and not any((u.id, x.id) in self.rf for x in rmws):
+                    continue
+                alts = []
+                if (u.id, w.id) in self.rf:
+                    alts.append(self.rf[(u.id, w.id)])
+                for x in rmws:
+                    if x is not u and x is not w and (u.id, x.id) in self.rf and self.same_loc(w, x) is not None:
+                        alts.append(z3.And(self.rf[(u.id, x.id)], rsv(w, x), clk[x.id] < clk[u.id]))
+                extra.append(rsv(w, u) == (z3.Or(*alts) if alts else z3.BoolVal(False)))
+
+        def sw_of(r, w):
+            """r (acquire read) synchronises with release write w: reads from w or from its release sequence"""
+            opts = []
+            if (r.id, w.id) in self.rf:
+                opts.append(self.rf[(r.id, w.id)])
+            for u in rmws:
+                if (w.id, u.id) in rs and (r.id, u.id) in self.rf:
+                    opts.append(z3.And(rs[(w.id, u.id)], self.rf[(r.id, u.id)]))
+            return z3.Or(*opts) if opts else None
 
         def hbv(x, y):
             k = (x.id, y.id)
@@ -193,9 +224,12 @@ class Scenario:
                 if r.tid != y.tid or not (r is y or self.po_before(r, y)):
                     continue
                 for w in relw:
-                    if (r.id, w.id) not in self.rf or w.tid == y.tid:
+                    if w.tid == y.tid:
                         continue
-                    sw = z3.And(self.rf[(r.id, w.id)], is_acq(r))
+                    swc = sw_of(r, w)
+                    if swc is None:
+                        continue
+                    sw = z3.And(swc, is_acq(r))
                     if w is x or self.po_before(x, w):
                         alts.append(sw)
                     elif w.tid != x.tid:
